@@ -65,17 +65,21 @@ theorem buildLoop_dry (F : BodyFn) (P : Project) (g : G) (cfg : Cfg) (hd : cfg.d
 /-- Case analysis of a `build` that returned: either the DAG / the sorter was rejected (nothing ran), or the build loop ran. -/
 theorem build_cases (F : BodyFn) (P : Project) (cfg : Cfg) (w : World) (picks : List Nat) (r : Result)
     (hb : build F P cfg w picks = .ok r) :
-    (r.w = w ∧ r.log = [] ∧ r.reports = []) ∨
+    (((∃ e, createDag P cfg = .error e) ∨
+        (∃ g marks e, createDag P cfg = .ok (g, marks) ∧ fromDag g isTaskV (prioFn P) = .error e)) ∧
+      r.w = w ∧ r.log = [] ∧ r.reports = []) ∨
     ∃ g marks so so' s, createDag P cfg = .ok (g, marks) ∧ fromDag g isTaskV (prioFn P) = .ok so ∧
       buildLoop F P g cfg so { w := w, skipMarks := marks } picks = .ok (so', s) ∧
       r.reports = s.reports ∧ r.log = s.log ∧ r.w = s.w ∧
       r.complete = (s.stop || s.crashed || !so'.isActive) := by
   unfold build at hb
   split at hb
-  · cases hb; exact Or.inl ⟨rfl, rfl, rfl⟩
+  · rename_i e he
+    cases hb; exact Or.inl ⟨Or.inl ⟨e, he⟩, rfl, rfl, rfl⟩
   · rename_i g marks hdag
     split at hb
-    · cases hb; exact Or.inl ⟨rfl, rfl, rfl⟩
+    · rename_i e he
+      cases hb; exact Or.inl ⟨Or.inr ⟨g, marks, e, hdag, he⟩, rfl, rfl, rfl⟩
     · rename_i so hso
       simp only [] at hb
       generalize hl : buildLoop F P g cfg so { w := w, skipMarks := marks } picks = res at hb
@@ -88,7 +92,7 @@ theorem build_cases (F : BodyFn) (P : Project) (cfg : Cfg) (w : World) (picks : 
 /-- A dry-run build: the resulting world is the initial world and no body was invoked. -/
 theorem build_dry (F : BodyFn) (P : Project) (cfg : Cfg) (w : World) (picks : List Nat) (r : Result)
     (hd : cfg.dry = true) (hb : build F P cfg w picks = .ok r) : r.w = w ∧ r.log = [] := by
-  rcases build_cases F P cfg w picks r hb with ⟨h1, h2, _⟩ | ⟨g, marks, so, so', s, _, _, hl, _, h2, h3, _⟩
+  rcases build_cases F P cfg w picks r hb with ⟨_, h1, h2, _⟩ | ⟨g, marks, so, so', s, _, _, hl, _, h2, h3, _⟩
   · exact ⟨h1, h2⟩
   · obtain ⟨a, b⟩ := buildLoop_dry F P g cfg hd picks _ _ so' s hl
     exact ⟨h3.trans a, h2.trans b⟩
